@@ -404,6 +404,8 @@ class Bed:
         L, resp = r.link, OTHER[r.side]
         tab = self.manager(L, resp).le_coc_channels.get(self.conn[L][resp].handle) or {}
         open_objs = {id(h.obj) for rec in list(self.recs.values()) + self.orphans for h in rec.halves.values() if h.open}
+        # server halves delivered during this very (concurrent) operation are accounted a moment later
+        open_objs |= {id(ch) for lst in self.incoming.values() for ch in lst if not getattr(ch, '_c09_claimed', False)}
         for key in sorted(tab):
             if id(tab[key]) not in open_objs:
                 return ('stale_le_coc_entry_at_responder', self._describe(tab[key])[2])
